@@ -305,7 +305,7 @@ class C11(core.Check):
         last_str = [None]
 
         def vexpr(nm, idx, val):
-            e = au.value_expr(canon(nm), val, last_str[0])
+            e = au.value_expr(canon(nm), val, last_str[0], computed=True)
             if canon(nm)[-1] == '$' and val != '' and not idx:
                 last_str[0] = nm
             elif canon(nm)[-1] == '$' and val != '':
@@ -316,6 +316,7 @@ class C11(core.Check):
                 limit = m.strings.current
                 free = limit - m.var_current()
                 rec = {'limit': limit, 'err': 0}
+                before_all = self._strings(m)
                 kind = op[0]
                 if kind == 'lets':
                     nm, val = op[1], op[2]
@@ -382,9 +383,15 @@ class C11(core.Check):
                     if not rec['err']:
                         rec['true_ptr'] = m.varptr(c.encode('ascii'), list(idx))
                 elif kind == 'fre':
-                    before = self._strings(m)
                     rec['err'], _ = self.sess.run('LOCATE 1,1:PRINT FRE("")')
                     rec['exp'] = 0
+                elif kind == 'dump':
+                    rec['exp'] = 0
+                else:
+                    raise ValueError(kind)
+                if kind == 'fre' or rec['err'] == 7:
+                    # a collection ran (FRE, or check_free before Out of memory): descriptors were relocated
+                    before = before_all
                     after = self._strings(m)
                     rec['resync'] = []
                     for (n, i), v in after.items():
@@ -399,10 +406,6 @@ class C11(core.Check):
                                 k //= d + 1 - b
                         rec['resync'].append((n.decode('ascii'), tup, v))
                     rec['limit2'] = m.strings.current
-                elif kind == 'dump':
-                    rec['exp'] = 0
-                else:
-                    raise ValueError(kind)
                 rec['snap'] = self._snapshot(s)
                 rec['cells'] = self._cellinfo(s, ref)
                 rec['ref'] = {k: ref.get(k[0], list(k[1])) for k in ref.cells()}
@@ -428,9 +431,10 @@ class C11(core.Check):
                 sn = rec['snap']
                 chunks.append([sn['vc'], sn['acur']] + sn['bytes'])
             elif kind == 'fre':
-                chunks += [[0] for _ in rec['resync']]
+                pass
             else:
                 chunks.append([0])
+            chunks += [[0] for _ in rec.get('resync', [])]
             for ch in chunks:
                 out += [len(ch)] + ch
         return out
@@ -479,7 +483,7 @@ class C11(core.Check):
                     terms.append('VPeek %s %s' % (lim, z(rec['v'] + op[3])))
             elif kind == 'dump':
                 terms.append('VDump %s' % lim)
-            elif kind == 'fre':
+            if 'resync' in rec:
                 # compaction rewrote these descriptors (environment action, C10): re-enter them
                 for nm, tup, v in rec['resync']:
                     if tup is None:
